@@ -212,3 +212,93 @@ theorem alma_weights_pos (N : Nat) (m s : ℝ) (len : Nat) : Alma.Pos (Alma.W N 
   obtain ⟨i, _, rfl⟩ := hg
   exact gauss_pos m s _
 end SF.C04.Real
+
+/-! ### Alma at ℝ: the four "genuine average" facts for the view's own definition -/
+namespace SF.C04.Real
+open SF SF.Spec
+
+/-- the Gaussian weights Alma attaches to the (at most N) values of its window after `len` values were delivered -/
+noncomputable def almaWeights (N : Nat) (sigma offset : ℝ) (len : Nat) : List ℝ :=
+  (List.range' 0 (min N len)).map fun j =>
+    gauss (offset * (nat N + nat 1)) (nat N / sigma) (min (len - min N len + j) (N - 1))
+
+theorem almaWeights_length (N : Nat) (sigma offset : ℝ) (len : Nat) : (almaWeights N sigma offset len).length = min N len := by
+  simp [almaWeights]
+
+theorem almaWeights_pos (N : Nat) (sigma offset : ℝ) (len : Nat) : Alma.Pos (almaWeights N sigma offset len) := by
+  intro g hg
+  simp only [almaWeights, List.mem_map] at hg
+  obtain ⟨i, _, rfl⟩ := hg
+  exact gauss_pos _ _ _
+
+/-- **Alma is the normalised mean of its window with these positive weights** (they depend on N, σ, offset and on HOW MANY
+values were delivered, never on the values) -/
+theorem alma_eq_wmean (N : Nat) (sigma offset : ℝ) (xs : List ℝ) (hx : xs ≠ []) :
+    Spec.alma N sigma offset xs =
+      some (Alma.dot (almaWeights N sigma offset xs.length) (lastN N xs) / sumL (almaWeights N sigma offset xs.length)) := by
+  have hxe : xs.isEmpty = false := by cases xs <;> simp_all
+  simp only [Spec.alma, hxe, Bool.false_eq_true, if_false, Option.some.injEq]
+  have hl : (lastN N xs).length = min N xs.length := lastN_length N xs
+  have hz := Alma.zipIdx_map_eq (fun j => gauss (offset * (nat N + nat 1)) (nat N / sigma)
+    (min (xs.length - (lastN N xs).length + j) (N - 1))) (lastN N xs) 0
+  rw [hz, Alma.dot_eq, hl]
+  have hlen : ((List.range' 0 (min N xs.length)).map fun j =>
+      gauss (offset * (nat N + nat 1)) (nat N / sigma) (min (xs.length - min N xs.length + j) (N - 1))).length
+      = (lastN N xs).length := by simp [hl]
+  rw [Alma.sum_fst_zip _ _ hlen]
+  rfl
+
+theorem almaWeights_ne_nil (N : Nat) (hN : 0 < N) (sigma offset : ℝ) (len : Nat) (hl : 0 < len) :
+    almaWeights N sigma offset len ≠ [] := by
+  intro h
+  have := congrArg List.length h
+  rw [almaWeights_length] at this
+  simp at this; omega
+
+/-- Alma reproduces a constant input exactly -/
+theorem alma_const (N : Nat) (hN : 0 < N) (sigma offset c : ℝ) (L : Nat) (hL : 0 < L) :
+    Spec.alma N sigma offset (List.replicate L c) = some c := by
+  have hne : List.replicate L c ≠ [] := by intro h; have := congrArg List.length h; simp at this; omega
+  rw [alma_eq_wmean N sigma offset _ hne]
+  have hw : lastN N (List.replicate L c) = List.replicate (almaWeights N sigma offset (List.replicate L c).length).length c := by
+    rw [almaWeights_length]
+    simp only [lastN, List.length_replicate, List.drop_replicate]
+    congr 1; omega
+  rw [hw, Alma.wmean_const _ (almaWeights_pos N sigma offset _) (almaWeights_ne_nil N hN sigma offset _ (by simpa using hL))]
+
+/-- Alma commutes with x ↦ a·x + b (any a, b) -/
+theorem alma_affine (N : Nat) (hN : 0 < N) (sigma offset a b : ℝ) (xs : List ℝ) :
+    Spec.alma N sigma offset (xs.map fun x => a * x + b) = (Spec.alma N sigma offset xs).map fun v => a * v + b := by
+  by_cases hx : xs = []
+  · subst hx; simp [Spec.alma]
+  · have hx' : (xs.map fun x => a * x + b) ≠ [] := by simpa using hx
+    rw [alma_eq_wmean N sigma offset _ hx', alma_eq_wmean N sigma offset _ hx]
+    simp only [List.length_map, Option.map_some, Option.some.injEq]
+    rw [lastN_map]
+    have hlen : (almaWeights N sigma offset xs.length).length = (lastN N xs).length := by
+      rw [almaWeights_length, lastN_length]
+    exact Alma.wmean_affine _ _ a b hlen (almaWeights_pos N sigma offset _)
+      (almaWeights_ne_nil N hN sigma offset _ (List.length_pos_of_ne_nil hx))
+
+/-- Alma is monotone: raising any input never lowers the output -/
+theorem alma_mono (N : Nat) (hN : 0 < N) (sigma offset : ℝ) (xs ys : List ℝ) (h : List.Forall₂ (· ≤ ·) xs ys) (hx : xs ≠ []) :
+    ∃ u v, Spec.alma N sigma offset xs = some u ∧ Spec.alma N sigma offset ys = some v ∧ u ≤ v := by
+  have hy : ys ≠ [] := by
+    intro e; subst e
+    have := h.length_eq; simp at this; exact hx this
+  refine ⟨_, _, alma_eq_wmean N sigma offset xs hx, alma_eq_wmean N sigma offset ys hy, ?_⟩
+  rw [← h.length_eq]
+  exact Alma.wmean_mono _ _ _ (almaWeights_pos N sigma offset _)
+    (almaWeights_ne_nil N hN sigma offset _ (List.length_pos_of_ne_nil hx)) (lastN_forall₂ N xs ys h)
+
+/-- Alma never leaves the closed interval spanned by the values of its window -/
+theorem alma_interval (N : Nat) (hN : 0 < N) (sigma offset : ℝ) (xs : List ℝ) (hx : xs ≠ []) (lo hi : ℝ)
+    (hlo : ∀ x ∈ lastN N xs, lo ≤ x) (hhi : ∀ x ∈ lastN N xs, x ≤ hi) :
+    ∃ v, Spec.alma N sigma offset xs = some v ∧ lo ≤ v ∧ v ≤ hi := by
+  refine ⟨_, alma_eq_wmean N sigma offset xs hx, ?_⟩
+  have hlen : (almaWeights N sigma offset xs.length).length = (lastN N xs).length := by
+    rw [almaWeights_length, lastN_length]
+  exact Alma.wmean_interval _ _ hlen (almaWeights_pos N sigma offset _)
+    (almaWeights_ne_nil N hN sigma offset _ (List.length_pos_of_ne_nil hx)) lo hi hlo hhi
+
+end SF.C04.Real
